@@ -42,7 +42,7 @@ def handleHStep (l : Line) : List Verdict :=
     let post ← stOfLine l "p"
     let x : Ww.Spec.Sys.Step := {
       mode := ← l.nat? "mode", cfwd := ← l.bool? "cfwd", inact := ← l.int? "inact", maxlife := ← l.int? "maxlife", acr := ← l.str? "acr",
-      idtok := ← l.bool? "idtok", autologin := ← l.bool? "autologin", op := ← l.get? "op", now := ← l.int? "now", ck := ← l.nat? "ck",
+      idtok := ← l.bool? "idtok", autologin := ← l.bool? "autologin", op := ← l.get? "op", now := ← l.int? "now", lag := ← l.int? "lag", ck := ← l.nat? "ck",
       plan := ← l.get? "plan", secs := ← l.int? "secs", newat := ← l.str? "newat", ignored := ← l.bool? "ignored", cauth := ← l.bool? "cauth",
       pre, status := ← l.nat? "status", fwd := ← l.bool? "fwd", upauth := ← l.get? "upauth", nauth := ← l.nat? "nauth", upid := ← l.get? "upid",
       contacted := ← l.nat? "contacted", granted := ← l.nat? "granted", hasbody := ← l.bool? "hasbody", bactive := ← l.bool? "bactive",
